@@ -340,6 +340,10 @@ fn assemble(contents: &StaticSource) -> Result<Air> {
     let parser = lace::AsmParser::new(contents.src())?;
     let mut air = parser.parse()?;
     air.backpatch()?;
+    // Label distances are only range-checked when emitting
+    for stmt in &air {
+        stmt.emit()?;
+    }
     Ok(air)
 }
 
